@@ -15,7 +15,9 @@ if os.environ.get('VERIF_C08_STRICT'):
 NONTRIVIAL_RULE = ('k in {2,3,4,5,10,16,36} x shapes {1D 3/5/7, Moore 3x3/5x5, masked von Neumann r=1/2} x dtypes '
                    '{int32, uint8} x contents {all 0, all k-1, random} x rule numbers {0, 1, k^j, random, largest in '
                    'range, smallest out of range, far out of range}; complete sweep of k=2, n=3 (8 contents x rules '
-                   '0..17) and of all sums for k=3, n=3; non-trivial = the call returned a digit or raised ValueError '
+                   '0..17) and of all sums for k=3, n=3; class_sequence: one TotalisticRule object called on 2-5 '
+                   'neighbourhoods of different sizes/forms, rule number placed below / between / above the bounds of '
+                   'the smallest and largest size, sizes ascending / descending / random; non-trivial = the call returned a digit or raised ValueError '
                    'on a well-formed input (2<=k<=36, contents in 0..k-1); distinct = distinct case dicts')
 EXHAUSTIVE = {'quick': False, 'thorough': False}
 NOTES = ['k = 2, n = 3 enumerated completely (all contents, all rule numbers 0..17) in both tiers',
@@ -88,6 +90,55 @@ def _rule(rng, n, k, which):
     raise KeyError(which)
 
 
+def _sequences(rng, count):
+    """class_sequence: one rule object, 2-5 calls on neighbourhoods of DIFFERENT sizes/forms.  The rule number is
+    placed relative to the bounds k^W of the smallest and the largest size of the sequence; the order of the sizes
+    is ascending, descending or random, so that the first call is the accepting one in some cases and the
+    rejecting one in others."""
+    places = ['in_both', 'exactly_small_digits', 'between', 'between_low', 'between_high', 'out_both', 'zero']
+    orders = ['ascending', 'descending', 'random']
+    for i in range(count):
+        k = rng.choice([2, 2, 3, 3, 4, 5, 10, 16, 36])
+        pool = SHAPES if k <= 5 else [s for s in SHAPES if _size(s) <= 9]      # Coq cost of 25 cells with big k
+        m = rng.randint(2, 5)
+        # distinct sizes first, then (if m is larger than the number of sizes) other forms of the same size
+        by_size = {}
+        for s in pool:
+            by_size.setdefault(_size(s), []).append(s)
+        sizes = rng.sample(sorted(by_size), min(m, len(by_size)))
+        shapes = [rng.choice(by_size[z]) for z in sizes]
+        while len(shapes) < m:
+            shapes.append(rng.choice(pool))
+        order = orders[i % 3]
+        if order == 'ascending':
+            shapes.sort(key=_size)
+        elif order == 'descending':
+            shapes.sort(key=_size, reverse=True)
+        else:
+            rng.shuffle(shapes)
+        n_small, n_large = min(map(_size, shapes)), max(map(_size, shapes))
+        lo, hi = k ** (n_small * (k - 1) + 1), k ** (n_large * (k - 1) + 1)
+        place = places[(i // 3) % len(places)]
+        if place == 'in_both':
+            rule = rng.randrange(lo)
+        elif place == 'exactly_small_digits':
+            rule = rng.randrange(lo // k, lo)
+        elif place == 'between':
+            rule = rng.randrange(lo, hi)
+        elif place == 'between_low':
+            rule = lo + rng.randrange(0, 3)
+        elif place == 'between_high':
+            rule = hi - 1 - rng.randrange(0, 3)
+        elif place == 'out_both':
+            rule = hi + rng.choice([0, 1, rng.randrange(hi)])
+        else:
+            rule = 0
+        seq = [{'shape': list(s), 'dtype': rng.choice(DTYPES),
+                'cells': _contents(rng, _size(s), k, rng.choice(['zeros', 'max', 'random', 'random', 'onehot']))}
+               for s in shapes]
+        yield {'kind': 'class_sequence/%s/%s' % (place, order), 'op': 'seq', 'k': k, 'rule': rule, 'seq': seq}
+
+
 RULE_KINDS = ['zero', 'one', 'kpow', 'random', 'random_short', 'max', 'min_out', 'far_out']
 
 
@@ -129,6 +180,9 @@ def generate(rng, tier):
         cells = _contents(rng, n, k, rng.choice(['onehot', 'random']))
         rule = _rule(rng, n, k, rng.choice(RULE_KINDS))
         yield _case('anyk/%s' % shape[0], shape, rng.choice(DTYPES), cells, k, rule, rng.random() < 0.35)
+    # ONE TotalisticRule object reused on neighbourhoods of different sizes / forms
+    for c in _sequences(rng, 200 * reps):
+        yield c
     # outside the quantified domain (still modelled): contents above k-1 / negative, k outside 2..36
     for _ in range(40 * reps):
         k = rng.choice([2, 3, 4, 10])
@@ -159,6 +213,13 @@ def _array(c):
 
 def run_impl(c):
     import cellpylib as cpl
+    if c.get('op') == 'seq':
+        arrays = [_array(it) for it in c['seq']]
+        made = call_impl(lambda: cpl.TotalisticRule(c['k'], c['rule']))
+        if made[0] != 'ok':
+            return [list(made)] * len(arrays)
+        obj = made[1]                               # ONE object for the whole sequence
+        return [list(call_impl(lambda: int(obj(a, i, 1)))) for i, a in enumerate(arrays)]
     arr = _array(c)
     if c['cls']:
         r = call_impl(lambda: int(cpl.TotalisticRule(c['k'], c['rule'])(arr, (0, 0), 1)))
@@ -184,29 +245,50 @@ def cNbig(n, chunk=512):
     return '(%s)%%N' % t
 
 
-def to_coq(c, obs):
-    kind, p = c['shape']
+def _mask_terms(shape):
+    kind, p = shape
     if kind == 'vn':
-        mask = '(Some %s)' % clist([bool(x) for x in _vn_mask(p).ravel()], cbool)
-        vn = '(Some %s)' % cnat(p)
-    else:
-        mask, vn = 'None', 'None'
+        return ('(Some %s)' % clist([bool(x) for x in _vn_mask(p).ravel()], cbool), '(Some %s)' % cnat(p))
+    return 'None', 'None'
+
+
+def to_coq(c, obs):
+    if c.get('op') == 'seq':
+        items = []
+        for it in c['seq']:
+            mask, vn = _mask_terms(it['shape'])
+            items.append('(Item %s %s %s %s)' % (cbool(it['dtype'] == 'uint8'), czlist(it['cells']), mask, vn))
+        return '(CSeq %s %s [%s] %s)' % (cN(c['k']), cNbig(c['rule']), '; '.join(items),
+                                         clist(obs, lambda o: cres(o, cz)))
+    mask, vn = _mask_terms(c['shape'])
     return '(CTot %s %s %s %s %s %s %s %s)' % (cbool(c['cls']), cbool(c['dtype'] == 'uint8'), czlist(c['cells']),
                                              mask, vn, cN(c['k']), cNbig(c['rule']), cres(obs, cz))
 
 
 def _in_domain(c):
+    if c.get('op') == 'seq':
+        return 2 <= c['k'] <= 36 and all(0 <= x <= c['k'] - 1 for it in c['seq'] for x in it['cells'])
     return 2 <= c['k'] <= 36 and all(0 <= x <= c['k'] - 1 for x in c['cells'])
 
 
 def nontrivial(c, obs):
+    if c.get('op') == 'seq':
+        return _in_domain(c) and all(o[0] == 'ok' or o[1] == 'ValueError' for o in obs)
     return _in_domain(c) and (obs[0] == 'ok' or obs[1] == 'ValueError')
 
 
 def oracle(c, obs):
     """The property itself, evaluated on the implementation's answer: (rule // k**s) % k, ValueError iff the rule
-    number needs more than size*(k-1)+1 digits."""
+    number needs more than size*(k-1)+1 digits; for a sequence, on every call separately."""
     if not _in_domain(c):
+        return None
+    if c.get('op') == 'seq':
+        if len(obs) != len(c['seq']):
+            return 'number of answers differs from the number of calls'
+        for i, (it, o) in enumerate(zip(c['seq'], obs)):
+            msg = oracle(dict(it, k=c['k'], rule=c['rule']), o)
+            if msg:
+                return 'call %d of the same TotalisticRule object: %s' % (i, msg)
         return None
     k, rule = c['k'], c['rule']
     kind, p = c['shape']
@@ -231,6 +313,17 @@ def oracle(c, obs):
 
 
 def shrink(c):
+    if c.get('op') == 'seq':
+        seq = c['seq']
+        if len(seq) > 2:
+            for i in range(len(seq)):
+                yield dict(c, seq=seq[:i] + seq[i + 1:])
+        for i, it in enumerate(seq):
+            if it['dtype'] == 'uint8':
+                yield dict(c, seq=seq[:i] + [dict(it, dtype='int32')] + seq[i + 1:])
+            if any(it['cells']):
+                yield dict(c, seq=seq[:i] + [dict(it, cells=[0] * len(it['cells']))] + seq[i + 1:])
+        return
     if c['cls']:
         yield dict(c, cls=False)
     if c['dtype'] == 'uint8':
